@@ -37,7 +37,13 @@ PartCond(part, v) == IF part.pk = "mol" THEN AndN(IF v.k = "list" THEN part.lcon
 \* outcomes of the children of v under part: <<>> when the part does not apply - also when what it evaluates is a
 \* single key condition on a list or a single index condition on a mapping (a map-or-list part given such a condition
 \* in its generic slot): the library refuses that filter (Cond.tla Refused) and resolution takes the refusal as "no match"
-ChildOutcomes(part, v) == IF ~Applies(part, v) \/ Refused(PartCond(part, v), v) THEN <<>> ELSE Filter(PartCond(part, v), v)
+\* ... and when the combination a map-or-list part makes on the fly (its index or key condition AND its generic
+\* condition) would hold key and index conditions at once: that combination is refused (CondHeap.tla Comb:
+\* "Cannot combine Key and Index"), which resolution again takes as "no match"
+MixesKeyAndIndex(c) == {"key", "index"} \subseteq LeafKinds(c)
+ChildOutcomes(part, v) ==
+  IF ~Applies(part, v) \/ Refused(PartCond(part, v), v) \/ (part.pk = "mol" /\ MixesKeyAndIndex(PartCond(part, v))) THEN <<>>
+  ELSE Filter(PartCond(part, v), v)
 SelUnconstrained(part, v) == LET os == ChildOutcomes(part, v) IN \E i \in 1..Len(os) : os[i] = "U"
 \* 1-based positions of the selected children
 Sel(part, v) == LET os == ChildOutcomes(part, v) IN
